@@ -743,7 +743,10 @@ impl Monitors {
                     let l = world.launch.borrow();
                     for t in ids {
                         for (exec, (w, tt, _)) in &self.exec_info {
-                            if w == &m.worker && tt == t && l.live.contains_key(exec) {
+                            if w == &m.worker
+                                && tt == t
+                                && l.live.get(exec).is_some_and(|e| e.start_step < m.step)
+                            {
                                 obs.alarm(
                                     "C08",
                                     m.step,
